@@ -3,6 +3,7 @@ package sym
 import (
 	"fmt"
 	"go/types"
+	"strconv"
 	"strings"
 
 	"golang.org/x/tools/go/ssa"
@@ -325,6 +326,24 @@ func (ip *Interp) registerIntrinsics() {
 		}
 	}
 
+	// ---- strconv.ParseFloat on symbolic digits ----
+	in["strconv.ParseFloat"] = func(ip *Interp, fr *frame, args []Value) Value {
+		s := ip.concStr(args[0].(Str))
+		if _, ok := s.concrete(); ok || ip.path == nil {
+			return ip.callBody(fr, "strconv", "ParseFloat", args)
+		}
+		if len(s.B) > 4 {
+			ip.oom("strconv.ParseFloat on a symbolic string longer than 4 bytes")
+		}
+		// Stub: an arbitrary float64 and no error. Sound for callers that have
+		// already matched the token against the decimal-float grammar (a token
+		// of <= 4 bytes cannot overflow or underflow float64).
+		p := ip.path
+		p.naux++
+		v := ip.st.Var("aux"+strconv.Itoa(p.naux)+"w64", 64)
+		return Tuple{v, Iface{}}
+	}
+
 	// ---- context ----
 	in["context.Background"] = func(ip *Interp, fr *frame, args []Value) Value { return Iface{} }
 	in["context.TODO"] = in["context.Background"]
@@ -365,4 +384,18 @@ func poisonFor(t types.Type, msg string) Value {
 		return out
 	}
 	return Poison{msg}
+}
+
+// callBody interprets the real body of pkg.name, bypassing its intrinsic.
+func (ip *Interp) callBody(fr *frame, pkg, name string, args []Value) Value {
+	p := ip.prog.ImportedPackage(pkg)
+	if p == nil {
+		ip.oom("package %s not loaded", pkg)
+	}
+	fn := p.Func(name)
+	key := fn.String()
+	h := ip.intrinsics[key]
+	delete(ip.intrinsics, key)
+	defer func() { ip.intrinsics[key] = h }()
+	return ip.callSSA(fr, fn, args, nil)
 }
